@@ -208,7 +208,7 @@ def full(m, name):
 
 def r3_regex(m, tier):
     r = RuleResult("C03.R3", "operator regexes cannot split inside a longer operator; every level's regex matches exactly its operator tokens")
-    r.floor = 11
+    r.floor = 12
     oracle = json.load(open(ORACLE))["operator_tokens"]
     # (a) exact token sets, both cases, optional inner blanks for dotted operators
     all_tokens = []
@@ -230,6 +230,38 @@ def r3_regex(m, tier):
         r.ob(bad is None, "%s matches exactly %s" % (name, toks))
         if bad:
             r.fail("%s|tokens|%s" % (name, bad[0]), "the operator regex %s %s the token %r" % (name, "accepts" if bad[1] else "rejects", bad[0]), None)
+    # (a') every other dotted word is a defined operator: no intrinsic level may claim it (a level that does takes a user's
+    # `.xor.` or `.nand.` out of the defined-operator level, the loosest one, or refuses it altogether)
+    import itertools
+    import string as _string
+    maxlen = 4 if tier == "thorough" else 3
+    dotted_levels = [name for name, toks in oracle.items() if any(t.startswith(".") for t in toks)]
+    compiled_levels = {name: full(m, name) for name in dotted_levels}
+    intrinsic_words = {t.strip(".").upper() for toks in oracle.values() for t in toks if t.startswith(".")}
+    extra = ["XNOR", "NAND", "NEQVV", "EQUIV", "FALSE", "TRUE", "NOTT", "ANDD"]
+    claimed = {}
+    n_words = 0
+    for k_ in range(1, maxlen + 1):
+        for tup in itertools.product(_string.ascii_uppercase, repeat=k_):
+            w = "".join(tup)
+            if w in intrinsic_words:
+                continue
+            n_words += 1
+            tok = "." + w + "."
+            for name, rx in compiled_levels.items():
+                if rx.match(tok) is not None:
+                    claimed.setdefault(name, tok)
+    for w in extra:
+        for name, rx in compiled_levels.items():
+            if rx.match("." + w + ".") is not None:
+                claimed.setdefault(name, "." + w + ".")
+    r.instances += 1
+    r.ob(not claimed, "%d dotted words of up to %d letters that are not intrinsic operators: claimed by none of %s"
+         % (n_words, maxlen, dotted_levels))
+    for name, tok in sorted(claimed.items()):
+        r.fail("%s|claims|%s" % (name, tok), "the operator regex %s accepts %r, which is not an intrinsic operator: a defined operator of "
+               "that spelling is no longer a defined operator (it gets the precedence of this level, or the expression is refused)"
+               % (name, tok), None)
     # (b) search behaviour on operator soup: mult_op never matches inside ** or //, power_op only **, concat_op only //
     k = 6 if tier == "thorough" else 5
     sigma = ["a", "*", "/", "=", "<", ">", " "]
